@@ -131,7 +131,7 @@ class RTFConstants:
         "\n": "\\line ",
         "\\pagenumber": "\\chpgn ",
         "\\totalpage": "\\totalpage ",
-        "\\pagefield": "{\\field{\\*\\fldinst NUMPAGES }} ",
+        "\\pagefield": "{\\field{\\*\\fldinst NUMPAGES }}",
     }
 
 
